@@ -332,6 +332,21 @@ def generate(tier, rng):
         yield 'adaptive', {'spec': spec}
         for bd in ([0, 0], [1, 1]):
             yield 'boundary', {'spec': spec, 'bdspec': bd}
+    # anisotropic spaces (different degree, span count and breakpoints per axis): boundary restriction on every face, transfers
+    aniso = [{'dim': 2, 'n': [2, 3], 'p': [1, 2], 'breaks': [[0.0, 0.4, 1.0], [0.0, 0.25, 0.6, 1.0]]},
+             {'dim': 2, 'n': [3, 2], 'p': [2, 1], 'breaks': [[0.0, 0.3, 0.7, 1.0], [0.0, 0.5, 1.0]]},
+             {'dim': 2, 'n': [2, 2], 'p': [2, 2], 'breaks': [[0.0, 0.35, 1.0], [0.0, 0.6, 1.0]]}]
+    if not quick:
+        aniso.append({'dim': 3, 'n': [2, 2, 2], 'p': [1, 2, 1], 'breaks': [[0.0, 0.4, 1.0], [0.0, 0.5, 1.0], [0.0, 0.7, 1.0]]})
+    for j, base in enumerate(aniso):
+        for r in range(2):
+            h = hgen.random_history(dict(base, disparity=['inf', 1][r]), 2, rng, multi_level=False)
+            for ax in range(base['dim']):
+                for side in (0, 1):
+                    yield 'boundary', {'spec': h, 'bdspec': [ax, side]}
+            yield 'represent', {'spec': h}
+            yield 'prolongate_to', {'spec': h, 'k': 0, 'm': 2}
+            yield 'virtual', {'spec': h}
     for j in range(10 if quick else 60):
         d = [2, 1, 'inf'][j % 3]
         base = {'dim': 1, 'n': 3, 'p': 1 + j % 3, 'disparity': d}
